@@ -26,7 +26,7 @@ CHECKS = {
  "C13": "Model of parse_rfc3339 / parse_offset / format_rfc3339 compared with /repo; outputs checked against RfcSpec (ABNF recogniser + denotation) for all precisions, inputs generated from the ABNF with 1..40 fraction digits and field mutations; theorems in props/C13.v (see file header).",
  "C14": "Model with every unwrap / index / slice of the text code explicit (Panic outcome) compared with /repo on a slice of the exhaustive small-string product and on mutated composite patterns; theorems in props/C14.v (see file header).",
  "C20": "Display / FromStr / serde (through serde_json) compared with the model instances of format / parse / RFC 3339 and with the documented text forms; theorems in props/C20.v (see file header).",
- "C08": "Coq theorems (props/C08.v): every Time reachable through any list of public operations stays inside [0, 24 h) (induction over the operation list), add_/sub_/operators compute (t +/- amount) mod 24 h keeping the offset, constructors accept exactly in-day values, equal fields imply equal values. Tied to /repo by a differential run.",
+ "C08": "Coq theorems (props/C08.v): every Time reachable through any list of public operations stays inside [0, 24 h) (induction over the operation list), add_/sub_/operators compute (t +/- amount) mod 24 h keeping the offset, constructors accept exactly in-day values, every Ok of Time::parse or Time::from_str is inside the day, equal fields imply equal values. Tied to /repo by a differential run.",
 }
 def chk(pid, text):
     return {"property_id": pid, "quick_cmd": "./check %s --tier quick" % pid, "thorough_cmd": "./check %s --tier thorough" % pid,
